@@ -138,6 +138,18 @@ func multiMembers() []multiMember {
 		files:  []*fam.FileSpec{{Name: "a.json", ID: "https://example.com/a", Root: objSpec(&fam.Prop{Label: "first", Spec: t, Required: true})}, {Name: "b.json", ID: "https://example.com/b", Root: objSpec(&fam.Prop{Label: "k", Spec: &fam.Spec{Kind: "boolean"}})}},
 		orders: [][]string{{"a.json"}, {"a.json", "b.json"}},
 		outOf:  map[string]string{"a.json": "out.go", "b.json": "out.go"}, pkgOf: map[string]string{"out.go": "example.com/pkg/model"}})
+	// a whole-file reference to a sibling whose root has properties but no "type" and refers back to itself by file name
+	{
+		self := func() *fam.Spec { return &fam.Spec{RefRootOf: "node.json", Kind: "object"} }
+		node := objSpec(&fam.Prop{Label: "v", Spec: &fam.Spec{Kind: "string", Kw: []string{"minLength"}}, Required: true},
+			&fam.Prop{Label: "next", Spec: self()}, &fam.Prop{Label: "kids", Spec: &fam.Spec{Kind: "array", Items: self()}})
+		node.NoType = true
+		out = append(out, multiMember{name: "a typeless root that refers to itself by file name", cfg: base,
+			files: []*fam.FileSpec{{Name: "a.json", ID: "https://example.com/a", Root: objSpec(&fam.Prop{Label: "head", Spec: &fam.Spec{RefRootOf: "node.json", Kind: "object"}, Required: true})},
+				{Name: "node.json", ID: "https://example.com/node", Root: node}},
+			orders: [][]string{{"a.json"}, {"a.json", "node.json"}, {"node.json", "a.json"}},
+			outOf:  map[string]string{"a.json": "out.go", "node.json": "out.go"}, pkgOf: map[string]string{"out.go": "example.com/pkg/model"}})
+	}
 	return out
 }
 
@@ -452,7 +464,7 @@ func sameFileView(s *fam.Spec) *fam.Spec {
 	c := *s
 	c.Props = nil
 	for _, p := range s.Props {
-		if p.Spec.RefFile != "" || p.Spec.RefRootOf != "" {
+		if crossFile(p.Spec) {
 			continue
 		}
 		np := *p
@@ -461,6 +473,10 @@ func sameFileView(s *fam.Spec) *fam.Spec {
 	}
 	c.Items = sameFileView(s.Items)
 	return &c
+}
+
+func crossFile(s *fam.Spec) bool {
+	return s != nil && (s.RefFile != "" || s.RefRootOf != "" || crossFile(s.Items))
 }
 
 func contains(xs []string, x string) bool {
